@@ -10,8 +10,8 @@ _lib = {}
 def plan(tier, seed):
     alt = spaces.label_choices(seed, 1)[0]
     if tier == 'quick':
-        blocks = [dict(n=3, m=2, labels='ints', schemes='all'), dict(n=3, m=3, labels='ints', schemes='six', per=60),
-                  dict(n=4, m=2, labels='ints', schemes='two', per=100), dict(n=3, m=2, labels=alt, schemes='four')]
+        blocks = [dict(n=3, m=2, labels='ints', schemes='all'), dict(n=3, m=3, labels='ints', schemes='six_t', per=60),
+                  dict(n=4, m=2, labels='ints', schemes='two_t', per=100), dict(n=3, m=2, labels=alt, schemes='four')]
         cons_n = [1, 2, 3, 4]
     else:
         blocks = [dict(n=4, m=2, labels='ints', schemes='all', per=100), dict(n=3, m=3, labels='ints', schemes='all', per=60),
